@@ -97,7 +97,8 @@ type RunObs struct {
 	SClass  string            `json:"sclass,omitempty"` // the same run through Stream
 	SResult string            `json:"sresult,omitempty"`
 	SMsg    string            `json:"smsg,omitempty"`
-	Fab     string            `json:"fab,omitempty"` // a lambda received a value that nobody produced (any mode)
+	Fab     string            `json:"fab,omitempty"`   // a lambda received a value that nobody produced (any mode)
+	Unrep   string            `json:"unrep,omitempty"` // Invoke completed although a node that ran handed a successor a value its input type does not hold
 	// the same run through Stream once more, the stream-producing lambdas (Stream / Transform) with an
 	// interface output type sending a second chunk of another dynamic type (first build, first plans)
 	Emit2  map[string]string `json:"emit2,omitempty"`
@@ -524,6 +525,53 @@ func build(c *Case, plans []runPlan, extra bool) (bo BuildObs) {
 			return
 		}
 		ro.Class, ro.Result, ro.Msg = once(false)
+		unreported := func(mode string) {
+			// The run-time check is exact: Invoke completed, so whatever a node that RAN handed to a successor over a
+			// data edge was assignable to the successor's input type.  A data edge is taken whenever its start node
+			// completes, and its check is made when the start node's output is written, in the superstep the node ran in
+			// (before the run can end); sources: START and the plain lambdas that report having received a value and have
+			// no post handler; consumers: plain lambdas, sub graph nodes (declared input type) and END.
+			seenMu.Lock()
+			ran := map[int]bool{0: true}
+			for _, sv := range seenVals {
+				ran[sv.key] = true
+			}
+			seenMu.Unlock()
+			nodeOp := map[int]*Op{}
+			for i := range c.Ops {
+				if o := &c.Ops[i]; o.K == "node" && i < len(bo.Oks) && bo.Oks[i] && nodeOp[o.Key] == nil {
+					nodeOp[o.Key] = o
+				}
+			}
+			for i := range c.Ops {
+				o := &c.Ops[i]
+				if o.K != "edge" || i >= len(bo.Oks) || !bo.Oks[i] || !ran[o.S] {
+					continue
+				}
+				val := pl.input
+				if o.S != 0 {
+					so := nodeOp[o.S]
+					if so == nil || so.Kind > 3 || so.Post != nil {
+						continue
+					}
+					val = pl.emit[o.S]
+				}
+				want := c.Out
+				if o.E != 1 {
+					eo := nodeOp[o.E]
+					if eo == nil || eo.Kind > 4 {
+						continue
+					}
+					want = eo.In
+				}
+				if val != "" && want != "" && !dynAssignable(val, want) && ro.Unrep == "" {
+					ro.Unrep = fmt.Sprintf(mode+"%s ran and handed %s the %s value %s, which a %s does not hold", keyName(o.S), keyName(o.E), dynTypeName(val), val, want)
+				}
+			}
+		}
+		if ro.Class == "ok" {
+			unreported("")
+		}
 		ro.SClass, ro.SResult, ro.SMsg = once(true)
 		// multi-chunk streams: every chunk of an interface-typed stream is a value of its own dynamic type
 		if extra && len(bo.Runs) < 4 {
@@ -550,6 +598,9 @@ func build(c *Case, plans []runPlan, extra bool) (bo BuildObs) {
 			cur_inv = dagInv
 			var dmsg string
 			ro.DClass, _, dmsg = once(false)
+			if ro.DClass == "ok" {
+				unreported("compiled with AllPredecessor: ")
+			}
 			if ro.DClass == "panic_esc" || ro.DClass == "panic_rec" || ro.DClass == "hang" {
 				ro.DClass += ": " + dmsg
 			}
@@ -964,11 +1015,18 @@ func runLattice(c *Case) lib.Result {
 			res.Oracle, res.Sig = what, sig
 		}
 	}
+	if !whiteBox {
+		// no hook in this build: nothing is read, nothing is sent to the model (empty tables agree trivially)
+		res.Nontrivial = false
+		res.Tags = append(res.Tags, "whitebox:unavailable")
+		res.CoqTerm = c.coq(bo)
+		return res
+	}
 	names := append([]string{""}, allTypes...)
 	p := lib.Recover(func() {
 		for _, a := range names {
 			for _, b := range names {
-				r := compose.VerifC07CheckAssignable(rtypes[a], rtypes[b])
+				r := hookCheckAssignable(rtypes[a], rtypes[b])
 				bo.Lat = append(bo.Lat, LatObs{a, b, r})
 				if a == "" || b == "" {
 					if r != 0 {
@@ -1052,6 +1110,9 @@ func (engine) Run(ci any) lib.Result {
 		}
 		for k := range b.Runs {
 			r := &b.Runs[k]
+			if r.Unrep != "" {
+				fail("unreported-mismatch", fmt.Sprintf("accepted graph: run %d (input %s, emit %v) completed (Invoke result %s) although %s: where the upstream type is an interface the dynamic value is checked and an ordinary error reported when it is not assignable", k, r.Input, r.Emit, r.Result, r.Unrep))
+			}
 			if r.Fab != "" {
 				fail("fabricated-value", fmt.Sprintf("accepted graph: run %d (input %s, emit %v): %s: a value that is not assignable must be reported, not replaced", k, r.Input, r.Emit, r.Fab))
 			}
